@@ -1,1 +1,219 @@
-fn main() {}
+mod ast;
+mod engine;
+mod gen;
+mod props;
+mod real;
+mod val;
+
+use engine::*;
+use std::collections::BTreeSet;
+use std::sync::Arc;
+
+fn usage() -> ! {
+  eprintln!("usage: arxv check --property <ID> [--tier quick|thorough] [--seed N] [--only <sub>] | replay <file> | selftest | sample <ID> <sub> [n]");
+  std::process::exit(2)
+}
+
+fn root_dir() -> String {
+  std::env::var("VERIF_ROOT").unwrap_or_else(|_| "/verif".to_string())
+}
+
+fn arg_val(args: &[String], name: &str) -> Option<String> {
+  args.iter().position(|a| a == name).and_then(|i| args.get(i + 1).cloned())
+}
+
+fn watchdog(secs: u64) {
+  std::thread::spawn(move || {
+    std::thread::sleep(std::time::Duration::from_secs(secs));
+    eprintln!("watchdog: check exceeded {} s wall clock: inconclusive", secs);
+    std::process::exit(2);
+  });
+}
+
+fn main() {
+  let args: Vec<String> = std::env::args().skip(1).collect();
+  if args.is_empty() {
+    usage();
+  }
+  let root = root_dir();
+  match args[0].as_str() {
+    "selftest" => {
+      let f = arx_rt::selftest::run_all(100);
+      if f.is_empty() {
+        println!("selftest ok");
+      } else {
+        println!("selftest FAILED: {:#?}", f);
+        std::process::exit(3);
+      }
+    }
+    "check" => {
+      let pid = arg_val(&args, "--property").unwrap_or_else(|| usage());
+      let tier = match arg_val(&args, "--tier").or_else(|| std::env::var("VERIF_TIER").ok()).as_deref() {
+        Some("thorough") => Tier::Thorough,
+        _ => Tier::Quick,
+      };
+      let seed: u64 = arg_val(&args, "--seed")
+        .or_else(|| std::env::var("VERIF_SEED").ok())
+        .and_then(|s| s.parse().ok())
+        .unwrap_or(20261002);
+      let only = arg_val(&args, "--only");
+      watchdog(tier.pick(900, 5400));
+      std::process::exit(run_check(&root, &pid, tier, seed, only));
+    }
+    "replay" => {
+      let path = args.get(1).cloned().unwrap_or_else(|| usage());
+      std::process::exit(run_replay(&root, &path, true));
+    }
+    _ => usage(),
+  }
+}
+
+fn mk_ctx(root: &str, tier: Tier, seed: u64, exclusions: BTreeSet<String>) -> props::Ctx {
+  let shards = std::env::var("VERIF_SHARDS").ok().and_then(|s| s.parse().ok()).unwrap_or(tier.pick(8, 16));
+  props::Ctx { tier, seed, root: root.to_string(), exclusions: Arc::new(exclusions), shards }
+}
+
+/// returns Ok(report) of re-running a replay file
+fn replay_report(ctx: &props::Ctx, path: &str) -> Result<(ReplayFile, Report), String> {
+  let text = std::fs::read_to_string(path).map_err(|e| format!("{}: {}", path, e))?;
+  let rf: ReplayFile = serde_json::from_str(&text).map_err(|e| format!("{}: {}", path, e))?;
+  for p in props::all() {
+    if p.id == rf.property {
+      for s in &p.subs {
+        if s.name == rf.check {
+          let rep = (s.replay)(ctx, &rf.case)?;
+          return Ok((rf, rep));
+        }
+      }
+    }
+  }
+  Err(format!("{}: unknown property/check {}/{}", path, rf.property, rf.check))
+}
+
+fn run_replay(root: &str, path: &str, verbose: bool) -> i32 {
+  let ctx = mk_ctx(root, Tier::Quick, 0, BTreeSet::new());
+  match replay_report(&ctx, path) {
+    Ok((rf, rep)) => match rep.fail {
+      Some(m) => {
+        if verbose {
+          eprintln!("{}", m);
+        }
+        println!("VIOLATION property={} replay={}", rf.property, path);
+        1
+      }
+      None => {
+        if verbose {
+          println!("replay holds: {}", rep.sample.unwrap_or_default());
+        }
+        0
+      }
+    },
+    Err(e) => {
+      eprintln!("replay error: {}", e);
+      2
+    }
+  }
+}
+
+fn run_check(root: &str, pid: &str, tier: Tier, seed: u64, only: Option<String>) -> i32 {
+  let t0 = std::time::Instant::now();
+  let prop = match props::all().into_iter().find(|p| p.id == pid) {
+    Some(p) => p,
+    None => {
+      eprintln!("unknown property {}", pid);
+      return 2;
+    }
+  };
+  // known findings: replay each open finding's probe; still failing => report + exclude
+  let known = load_known(root);
+  let mut exclusions = BTreeSet::new();
+  let mut known_lines = Vec::new();
+  let probe_ctx = mk_ctx(root, tier, seed, BTreeSet::new());
+  for k in known.findings.iter().filter(|k| k.status == "open") {
+    let still = match &k.probe {
+      Some(p) => match replay_report(&probe_ctx, &format!("{}/{}", root, p)) {
+        Ok((_, rep)) => rep.fail.is_some(),
+        Err(e) => {
+          eprintln!("known finding {}: probe unusable: {}", k.id, e);
+          false
+        }
+      },
+      None => false,
+    };
+    if still {
+      if let Some(x) = &k.exclude {
+        for sw in x.split(',') {
+          exclusions.insert(sw.trim().to_string());
+        }
+      }
+      if k.property == pid {
+        known_lines.push(format!("KNOWN-FINDING: property={} {} [{}]", k.property, k.what, k.id));
+      }
+    }
+  }
+  let ctx = mk_ctx(root, tier, seed, exclusions.clone());
+  // regression tier: replay committed files for this property (known/ probes of *fixed*
+  // findings and regress/ files must hold)
+  let mut replayed = Vec::new();
+  let fixed_probes: Vec<String> = known
+    .findings
+    .iter()
+    .filter(|k| k.status == "fixed" && k.property == pid)
+    .filter_map(|k| k.probe.clone())
+    .collect();
+  let mut files: Vec<String> = fixed_probes.into_iter().map(|p| format!("{}/{}", root, p)).collect();
+  if let Ok(rd) = std::fs::read_dir(format!("{}/regress", root)) {
+    let mut v: Vec<String> = rd
+      .filter_map(|e| e.ok())
+      .map(|e| e.path().to_string_lossy().to_string())
+      .filter(|p| p.ends_with(".json") && p.contains(&format!("/{}-", pid)))
+      .collect();
+    v.sort();
+    files.extend(v);
+  }
+  for f in files {
+    match replay_report(&ctx, &f) {
+      Ok((_, rep)) => {
+        if let Some(m) = &rep.fail {
+          eprintln!("[{}] regression file {} fails: {}", pid, f, m);
+        }
+        replayed.push((f, rep.fail.is_none()));
+      }
+      Err(e) => eprintln!("[{}] regression file skipped: {}", pid, e),
+    }
+  }
+  let mut subs = Vec::new();
+  let mut skipped = Vec::new();
+  for s in &prop.subs {
+    if let Some(o) = &only {
+      if o != s.name {
+        skipped.push(format!("{} (not selected)", s.name));
+        continue;
+      }
+    }
+    let r = (s.run)(&ctx);
+    eprintln!(
+      "[{}:{}] evaluations={} nontrivial={} wall={:.1}s{}",
+      pid,
+      s.name,
+      r.evaluations,
+      r.nontrivial_distinct,
+      r.wall_s,
+      if r.failure.is_some() { " FAILED" } else { "" }
+    );
+    subs.push(r);
+  }
+  let out = CheckOutput {
+    property: pid.to_string(),
+    tier,
+    seed,
+    rule: prop.rule.to_string(),
+    assumptions: prop.assumptions.iter().map(|s| s.to_string()).collect(),
+    subs,
+    known_lines,
+    exclusions_active: exclusions.into_iter().collect(),
+    replayed,
+    skipped,
+  };
+  finish(root, out, t0.elapsed().as_secs_f64())
+}
